@@ -6,6 +6,9 @@ import os
 VERIF = os.path.dirname(os.path.dirname(os.path.abspath(__file__)))
 
 CHECKS = {
+    "C10": ("reference-oracle monitor: levy_exponent on real/imaginary arguments vs Levy-Khintchine quadrature of the declared triplet; stated cumulants vs Cauchy integrals of the exponent; recorded drift across generated sequences of representation changes; martingale identity through CF, direct-simulation drift and chain (TILDE) drift",
+            "Held-on-observed: all families incl. the five CGMY branches, 12 real + 6 imaginary arguments per model, cumulants 1..6, 6-step conversion sequences with return, three martingale routes.",
+            "Quadrature of the density trusted (stable series for the compensated integrand); arguments with n - activity < 0.25 skipped.", "3/C10"),
     "C11": ("monitors on the real copula callables and the volume/margin operators over generated argument vectors and rectangles; oracle: harness 2^d corner sums, integration of the stated derivative against exact F-volumes, monotonicity meshes, inverse round trips",
             "Held-on-observed: grounded, d-increasing (incl. rectangles straddling 0 and infinite upper sides), identity margins for Clayton (eta in [0,1] incl. end points), independent and dependent copulas in d=2,3; Clayton conditional distribution / inverse; mixed-derivative relation (known finding).",
             "Rectangles with corners in (-inf, inf]^d except the all-infinite upper corner; scipy nquad trusted.", "3/C11"),
